@@ -403,3 +403,78 @@ Theorem C12_pool_norecheck_variant_times_out :
       lk_idle (p_lk s2) = 1 /\ lk_clock (p_lk s2) = 10001 /\ In (CWait false) (lk_log (p_lk s2)).
 Proof. exact pool_norecheck_variant_times_out. Qed.
 Print Assumptions C12_pool_norecheck_variant_times_out.
+
+(* TIE TO THE SOURCE CODE (gen/StreamParamsSrc.v, re-translated by tools/translate_streamparams.py on every run from
+   cameleon/src/u3v/stream_handle.rs: StreamParams::{new, maximum_payload_size, payload_transfer_sizes} and the free
+   functions read_leader / read_payload / read_trailer; operations of model/RdOps.v + model/SpOps.v, integer
+   arithmetic of lib/RustInt.v).  src_X are the TRANSLATED functions; to_params / of_params (proofs/P_C12s.v) rename the
+   fields of the translated struct to those of model/StreamLoop.v's params.  A buffer is its length; the pool is the list
+   of ranges submitted so far; `res k` is the result of the k-th submission. *)
+From Cam Require Import RustInt RdOps SpOps StreamParamsSrc P_C12s.
+
+(* payload_transfer_sizes (repeat .. take .. chain(Some(final).filter(!= 0))) is psizes, for every parameter record:
+   list equality, any count *)
+Theorem C12_transfer_sizes_from_source :
+  (forall p, src_StreamParams_payload_transfer_sizes p = psizes (to_params p)) /\
+  (forall q tmo, src_StreamParams_payload_transfer_sizes (of_params q tmo) = psizes q) /\
+  (forall a b c d e f t, to_params (src_StreamParams_new a b c d e f t) =
+     {| q_leader := a; q_trailer := b; q_psize := c; q_pcount := d; q_f1 := e; q_f2 := f |}).
+Proof. exact transfer_sizes_from_source_all. Qed.
+Print Assumptions C12_transfer_sizes_from_source.
+
+(* maximum_payload_size is max_payload; the usize arithmetic (`*`, `+`, `+`, each overflow-checked in a debug build)
+   panics exactly when the sum does not fit 64 bits *)
+Theorem C12_max_payload_from_source :
+  (forall p, sizes_nonneg (to_params p) ->
+     src_StreamParams_maximum_payload_size p =
+     if max_payload (to_params p) <? 2 ^ 64 then Ok (max_payload (to_params p)) else Panic) /\
+  (forall q tmo, prm_ok q = true -> max_payload q < 2 ^ 64 ->
+     src_StreamParams_maximum_payload_size (of_params q tmo) = Ok (max_payload q)).
+Proof. exact max_payload_from_source_all. Qed.
+Print Assumptions C12_max_payload_from_source.
+
+(* read_leader / read_payload / read_trailer: for EVERY result of the submissions, read_payload submits from offset 0
+   on one slice per element of payload_transfer_sizes (submit_all: slice, then submit, `?`); a zero final transfer is
+   skipped; leader and trailer are one slice [0, size).  With every submission succeeding the frame's submissions are
+   the model's slots - leader range, consecutive payload ranges, trailer range - and the helpers panic exactly when
+   one of the model's slice_in checks fails *)
+Theorem C12_read_helpers_from_source :
+  (forall res p prm blen, src_fn_read_leader res p prm blen =
+     omap (fun p' => (tt, p')) (submit_all res blen 0 [q_leader (to_params prm)] p)) /\
+  (forall res p prm blen, sizes_nonneg (to_params prm) -> blen < 2 ^ 64 ->
+     src_fn_read_payload res p prm blen =
+     omap (fun p' => (tt, p')) (submit_all res blen 0 (src_StreamParams_payload_transfer_sizes prm) p)) /\
+  (forall res p prm blen, src_fn_read_trailer res p prm blen =
+     omap (fun p' => (tt, p')) (submit_all res blen 0 [q_trailer (to_params prm)] p)) /\
+  (forall q tmo lbuf buf tbuf, prm_ok q = true -> zlen buf < 2 ^ 64 ->
+     submit_frame all_ok (of_params q tmo) (zlen lbuf) (zlen buf) (zlen tbuf) =
+     if forallb (fun k => slice_in q lbuf tbuf buf k (nth k (slots q) 0)) (seq 0 (nslots q))
+     then Ok ((0, q_leader q) :: ranges 0 (psizes q) ++ [(0, q_trailer q)]) else Panic).
+Proof. exact read_helpers_from_source_all. Qed.
+Print Assumptions C12_read_helpers_from_source.
+
+(* on the translated code alone: when maximum_payload_size returns m, the translated transfer sizes sum to m, and in a
+   buffer of m bytes read_payload submits the consecutive ranges of those sizes, each inside [0, m]; in any shorter
+   buffer it panics before submitting the slice that does not fit *)
+Theorem C12_transfer_layout_of_source : forall p m, sizes_nonneg (to_params p) ->
+  src_StreamParams_maximum_payload_size p = Ok m ->
+  zsum (src_StreamParams_payload_transfer_sizes p) = m /\ 0 <= m < 2 ^ 64 /\
+  src_fn_read_payload all_ok [] p m = Ok (tt, ranges 0 (src_StreamParams_payload_transfer_sizes p)) /\
+  Forall (fun r => 0 <= fst r /\ fst r <= snd r /\ snd r <= m) (ranges 0 (src_StreamParams_payload_transfer_sizes p)) /\
+  (forall blen, 0 <= blen < m -> src_fn_read_payload all_ok [] p blen = Panic).
+Proof. exact layout_of_source. Qed.
+Print Assumptions C12_transfer_layout_of_source.
+
+(* non-vacuity: sizes 3 x 1024 + 512 (final2 = 0 skipped), the six ranges of a frame, the panic in a buffer one byte
+   short, a failing third submission, the overflow panic of maximum_payload_size, a lone final2 transfer *)
+Theorem C12_source_examples :
+  src_StreamParams_payload_transfer_sizes ex_prm = [1024; 1024; 1024; 512] /\
+  src_StreamParams_maximum_payload_size ex_prm = Ok 3584 /\
+  submit_frame all_ok ex_prm 52 3584 32 =
+    Ok [(0, 52); (0, 1024); (1024, 2048); (2048, 3072); (3072, 3584); (0, 32)] /\
+  submit_frame all_ok ex_prm 52 3583 32 = Panic /\
+  submit_frame (fun k => if k =? 2 then Some 5 else None) ex_prm 52 3584 32 = Err 5 /\
+  src_StreamParams_maximum_payload_size (src_StreamParams_new 0 0 (2 ^ 63) 2 0 0 0) = Panic /\
+  src_StreamParams_payload_transfer_sizes (src_StreamParams_new 8 8 16 0 0 24 0) = [24].
+Proof. exact c12s_examples. Qed.
+Print Assumptions C12_source_examples.
